@@ -178,7 +178,7 @@ def compile_dropping_rejected(wd, tag, tutext, roots):
             fam = set()
             for b in bad:
                 m = re.match(r"^e_([a-z]+)_[A-Za-z0-9_]*__([a-z0-9]+)__([a-z0-9_]+)$", b)
-                if m:
+                if m and m.group(1) == "shuffle":     # (only where the shared failing instantiation is known: the constant swizzle inside shuffle)
                     fam.add((m.group(1), m.group(2), m.group(3)))
             more = {r for r in roots if r not in dropped and r not in bad and
                     any(r.startswith("e_%s_" % f[0]) and r.endswith("__%s__%s" % (f[1], f[2])) for f in fam)}
